@@ -949,25 +949,32 @@ func Entry() Sel {
 	}}
 }
 
-var sentinelCache = map[*ssa.Global]bool{}
+var initStoreCache = map[*ssa.Global]ssa.Value{}
+var initStoreDone = map[*ssa.Global]bool{}
 
-// sentinelNonNil: the only store to g in its package is in the package
-// initialiser and stores a value that is certainly non-nil.
-func sentinelNonNil(g *ssa.Global) bool {
-	if v, ok := sentinelCache[g]; ok {
-		return v
+// singleInitStore returns the value stored into the package-level variable g
+// when g is assigned exactly once, in its package initialiser, and is never
+// stored to or has its address taken anywhere else (for an exported variable
+// every package of the program is scanned); nil otherwise.
+func singleInitStore(g *ssa.Global) ssa.Value {
+	if initStoreDone[g] {
+		return initStoreCache[g]
 	}
-	sentinelCache[g] = false
+	initStoreDone[g] = true
 	if g.Pkg == nil {
-		return false
+		return nil
 	}
 	stores, good := 0, true
+	var val ssa.Value
 	var scan func(fn *ssa.Function)
 	scan = func(fn *ssa.Function) {
 		for _, b := range fn.Blocks {
 			for _, in := range b.Instrs {
 				switch x := in.(type) {
 				case *ssa.Store:
+					if x.Val == ssa.Value(g) {
+						good = false
+					}
 					if x.Addr != ssa.Value(g) {
 						continue
 					}
@@ -976,16 +983,7 @@ func sentinelNonNil(g *ssa.Global) bool {
 						good = false
 						continue
 					}
-					nonNil := false
-					if isNil, known := nilness(x.Val); known && !isNil {
-						nonNil = true
-					} else if call, isCall := x.Val.(*ssa.Call); isCall {
-						n := CalleeName(&call.Call)
-						nonNil = n == "errors.New" || n == "fmt.Errorf"
-					}
-					if !nonNil {
-						good = false
-					}
+					val = x.Val
 				default:
 					// the address escaping (passed or stored) would allow other writes
 					for _, op := range in.Operands(nil) {
@@ -1002,25 +1000,80 @@ func sentinelNonNil(g *ssa.Global) bool {
 			scan(a)
 		}
 	}
-	for _, m := range g.Pkg.Members {
-		if fn, ok := m.(*ssa.Function); ok {
-			scan(fn)
-		}
+	// every package that can name g: its own, and for an exported variable all the others
+	pkgs := []*ssa.Package{g.Pkg}
+	if g.Object() != nil && g.Object().Exported() {
+		pkgs = g.Pkg.Prog.AllPackages()
 	}
-	// methods
-	for _, m := range g.Pkg.Members {
-		if t, ok := m.(*ssa.Type); ok {
-			for _, recv := range []types.Type{t.Type(), types.NewPointer(t.Type())} {
-				ms := g.Pkg.Prog.MethodSets.MethodSet(recv)
-				for i := 0; i < ms.Len(); i++ {
-					if fn := g.Pkg.Prog.MethodValue(ms.At(i)); fn != nil && fn.Pkg == g.Pkg && fn.Synthetic == "" {
-						scan(fn)
+	for _, pk := range pkgs {
+		for _, m := range pk.Members {
+			if fn, ok := m.(*ssa.Function); ok {
+				scan(fn)
+			}
+		}
+		for _, m := range pk.Members {
+			if t, ok := m.(*ssa.Type); ok {
+				for _, recv := range []types.Type{t.Type(), types.NewPointer(t.Type())} {
+					ms := pk.Prog.MethodSets.MethodSet(recv)
+					for i := 0; i < ms.Len(); i++ {
+						if fn := pk.Prog.MethodValue(ms.At(i)); fn != nil && fn.Pkg == pk && fn.Synthetic == "" {
+							scan(fn)
+						}
 					}
 				}
 			}
 		}
 	}
-	v := good && stores == 1
-	sentinelCache[g] = v
-	return v
+	if good && stores == 1 {
+		initStoreCache[g] = val
+	}
+	return initStoreCache[g]
+}
+
+// sentinelNonNil: g is assigned once, in the package initialiser, a value that is certainly non-nil.
+func sentinelNonNil(g *ssa.Global) bool {
+	v := singleInitStore(g)
+	if v == nil {
+		return false
+	}
+	if isNil, known := nilness(v); known && !isNil {
+		return true
+	}
+	if call, isCall := v.(*ssa.Call); isCall {
+		n := CalleeName(&call.Call)
+		return n == "errors.New" || n == "fmt.Errorf"
+	}
+	return false
+}
+
+// GlobalSliceCap: g is a package-level slice assigned once, in the initialiser,
+// make([]T, n[, c]) with constant sizes; its capacity (and length n) never change.
+func GlobalSliceCap(g *ssa.Global) (length, capacity int64, ok bool) {
+	v := singleInitStore(g)
+	// make with constant sizes is compiled to new([n]T)[:]
+	if sl, isSl := v.(*ssa.Slice); isSl && sl.Low == nil && sl.Max == nil {
+		if al, isAl := sl.X.(*ssa.Alloc); isAl {
+			if at, isArr := al.Type().Underlying().(*types.Pointer).Elem().Underlying().(*types.Array); isArr {
+				n := at.Len()
+				if sl.High != nil {
+					hc, isK := sl.High.(*ssa.Const)
+					if !isK || hc.Value == nil {
+						return 0, 0, false
+					}
+					n = hc.Int64()
+				}
+				return n, at.Len(), true
+			}
+		}
+	}
+	ms, isMake := v.(*ssa.MakeSlice)
+	if !isMake {
+		return 0, 0, false
+	}
+	lc, ok1 := ms.Len.(*ssa.Const)
+	cc, ok2 := ms.Cap.(*ssa.Const)
+	if !ok1 || !ok2 || lc.Value == nil || cc.Value == nil {
+		return 0, 0, false
+	}
+	return lc.Int64(), cc.Int64(), true
 }
